@@ -432,6 +432,10 @@ pub fn run_scenario(ctx: &mut Ctx, which: Which, sc: &Scenario) -> Res {
         Ok(l) => l,
         Err(e) => return ctx.fail("server-new-failed", e),
     };
+    if !ctx.counting {
+        // shrinking a failing case: a wedged worker is recognised after 1 s instead of 5 s
+        lab.patience = std::time::Duration::from_secs(1);
+    }
     let mut tally = (0u64, 0u64);
     for (k, step) in sc.steps.iter().enumerate() {
         let sent = materialize(&lab, step, nsocks);
@@ -515,6 +519,10 @@ pub fn fault_share(ctx: &mut Ctx, c: &FaultShare) -> Res {
         Ok(l) => l,
         Err(e) => return ctx.fail("server-new-failed", e),
     };
+    if !ctx.counting {
+        // shrinking a failing case: a wedged worker is recognised after 1 s instead of 5 s
+        lab.patience = std::time::Duration::from_secs(1);
+    }
     let mut tally = (0u64, 0u64);
     let mut k = 0u32;
     while tally.0 < c.n as u64 {
